@@ -267,6 +267,7 @@ def run_streams_thorough(prop, seed, wdir, rounds):
             st[key].update(q[key])
         st["order"].extend(q["order"])
         st["t_impl"] += q["t_impl"]; st["t_model"] += q["t_model"]
+        st["hung"] = st.get("hung", []) + q.get("hung", [])
     return st
 
 
@@ -276,7 +277,26 @@ def run_cases(cases, wdir, tagname):
     meta = os.path.join(wdir, f"{tagname}.meta")
     model = os.path.join(wdir, f"{tagname}.model")
     t0 = time.time()
-    r = sh([HBIN, "run", cases, impl, orac, meta], timeout=7200, stdout=subprocess.DEVNULL)
+    # non-termination of the implementation: the harness notes the id of the case it is about to execute in <impl>.progress;
+    # on a timeout that case is set aside (reported by check() as a violation with the input as replay) and the run is
+    # repeated without it (at most 3 times)
+    hung = []
+    limit = int(os.environ.get("VERIF_RUN_TIMEOUT", "300" if not tagname.startswith("round") and tagname != "edge" else "900"))
+    for attempt in range(4):
+        try:
+            r = sh([HBIN, "run", cases, impl, orac, meta], timeout=limit, stdout=subprocess.DEVNULL)
+            break
+        except subprocess.TimeoutExpired:
+            try: last = open(impl + ".progress").read().split()[-1]
+            except Exception: last = None
+            if last is None or attempt == 3:
+                print("ERROR: harness run timed out and the running case could not be identified"); sys.exit(2)
+            keep = []; seen = False
+            for line in open(cases):
+                if line.split(" ", 1)[0] == last: hung.append(line.rstrip("\n")); seen = True
+                elif attempt == 2 and seen: pass    # third hang: the rest of the stream is given up (there is enough to report)
+                else: keep.append(line)
+            with open(cases, "w") as f: f.writelines(keep)
     if r.returncode != 0:
         print("ERROR: harness run failed (rc=%s)" % r.returncode); sys.exit(2)
     t1 = time.time()
@@ -292,7 +312,7 @@ def run_cases(cases, wdir, tagname):
         for f_ in (impl, model): 
             try: os.remove(f_)
             except OSError: pass
-    return dict(cases=c, order=order, impl=di, oracle=read_lines(orac)[0],
+    return dict(cases=c, order=order, impl=di, oracle=read_lines(orac)[0], hung=hung, run_timeout=limit,
                 meta=read_lines(meta)[0], model=dm, files=dict(cases=cases, impl=impl, model=model, oracle=orac),
                 t_impl=t1 - t0, t_model=t2 - t1)
 
@@ -434,9 +454,11 @@ def check(prop, tier, seed):
                 o = se["oracle"].get(k, "")
                 st["oracle"][k] = "skip-verdict(edge) " + o if o.startswith("FAIL") else o
             st["t_impl"] += se["t_impl"]; st["t_model"] += se["t_model"]
+            st["hung"] = st.get("hung", []) + se.get("hung", [])
     dis, fails, skipped = analyse(st)
     unknown, known = known_filter(prop, st, fails)
     dist, distinct = stats(st, set(skipped))
+    hung_lines = list(st.get("hung", []))
     violations = []
     lines = []
     seen_kf = set()
@@ -448,6 +470,13 @@ def check(prop, tier, seed):
     known_ids = {k for k, _ in known}
     dis_unexplained = [k for k in dis if k not in known_ids]
     searched = 0
+    if hung_lines:
+        os.makedirs(os.path.join(ROOT, "replays"), exist_ok=True)
+        path = os.path.join(ROOT, "replays", f"{prop}-nontermination-{int(time.time())}.replay")
+        with open(path, "w") as f:
+            f.write(f"# property {prop}; kind: nontermination\n# the implementation did not return within {st.get('run_timeout')} s on this input (the harness was killed while executing it)\n# replay with: python3 verif.py replay <this file>\n")
+            for l in hung_lines: f.write(l + "\n")
+        violations.append(f"VIOLATION property={prop} replay={path}")
     if unknown:
         k = unknown[0]
         body = st["cases"][k]
@@ -459,7 +488,7 @@ def check(prop, tier, seed):
         path = write_replay(prop, st, [k] + unknown[1:10], "oracle",
                             "the implementation's output violates the property oracle on this input (first case shrunk)")
         violations.append(f"VIOLATION property={prop} replay={path}")
-    elif dis_unexplained or not pl["ok"]:
+    elif (dis_unexplained or not pl["ok"]) and not hung_lines:
         # proof or correspondence broken but no failing input in the main run: extended search
         found = None
         nextra = 6 if tier == "quick" else 25
@@ -547,7 +576,10 @@ def replay(path):
         same = st["impl"].get(k) == st["model"].get(k)
         print(f"{k}\n  request: {st['cases'][k][:400]}\n  impl   : {(st['impl'].get(k) or '')[:400]}\n  model  : {(st['model'].get(k) or '')[:400]}\n  oracle : {st['oracle'].get(k)}\n  impl==model: {same}")
         if not same or st["oracle"].get(k, "").startswith("FAIL"): bad += 1
-    if not st["order"]:
+    for l in st.get("hung", []):
+        print(f"{l.split(' ', 1)[0]}\n  request: {l[:400]}\n  impl   : DID NOT RETURN within {st.get('run_timeout')} s (killed)")
+        bad += 1
+    if not st["order"] and not st.get("hung"):
         print(open(path).read())
     return 1 if bad else 0
 
